@@ -101,6 +101,9 @@ func (e *Engine) block(st *State, key string) {
 	g := st.gs[st.cur]
 	g.blocked = key
 	g.resumed = true
+	if e.debugDeadlock {
+		st.trace = append(st.trace, fmt.Sprintf("g%d blocks on %s at %s", st.cur, key, e.pos(st)))
+	}
 	e.yield(st)
 }
 
@@ -223,6 +226,7 @@ func (e *Engine) decide(st *State, cond *Term) bool {
 			return true
 		}
 		alt := st.clone()
+		st.undoInto(alt)
 		alt.forkHash = base*1000003 + 2
 		alt.pc = alt.pc[:st.pcMark]
 		alt.nvars = st.nvarsMark
@@ -444,6 +448,7 @@ func (e *Engine) global(st *State, g *ssa.Global) Value {
 		e.incomplete["note: uninitialised foreign global "+g.String()]++
 		id = st.alloc(zero(g.Type().Underlying().(*types.Pointer).Elem()))
 		globals[g] = id
+		st.jHeapLen = len(st.heap)
 		e.lazyGlobals = append(e.lazyGlobals, id)
 	}
 	if id >= len(st.heap) {
@@ -487,7 +492,7 @@ func (e *Engine) ret(st *State, res Value) {
 		return
 	}
 	if f.onRet != "" {
-		st.covered[f.onRet+":done"] = true
+		st.setCovered(f.onRet + ":done")
 		if st.race != nil {
 			st.race.release(st.cur, f.onRet)
 		}
@@ -512,19 +517,11 @@ func (e *Engine) ret(st *State, res Value) {
 
 func (e *Engine) step(st *State) {
 	if st.gs[st.cur].done {
-		st.log = st.log[:0]
-		st.pcMark = len(st.pc)
-		st.nvarsMark = st.nvars
-		st.namedMark = len(st.named)
-		st.traceMark = len(st.trace)
+		st.beginStep()
 		e.yield(st)
 	}
 	if g := st.gs[st.cur]; g.panicMsg != "" && !g.unwindPaused {
-		st.log = st.log[:0]
-		st.pcMark = len(st.pc)
-		st.nvarsMark = st.nvars
-		st.namedMark = len(st.named)
-		st.traceMark = len(st.trace)
+		st.beginStep()
 		e.unwindStep(st)
 		return
 	}
@@ -559,11 +556,7 @@ func (e *Engine) step(st *State) {
 	}
 	f := st.top()
 	in := f.blk.Instrs[f.ip]
-	st.log = st.log[:0]
-	st.pcMark = len(st.pc)
-	st.nvarsMark = st.nvars
-	st.namedMark = len(st.named)
-	st.traceMark = len(st.trace)
+	st.beginStep()
 	st.steps++
 	e.steps++
 	switch x := in.(type) {
@@ -617,7 +610,7 @@ func (e *Engine) step(st *State) {
 		if len(c.buf) >= c.cap {
 			e.block(st, "chan:"+ptrKey(p))
 		}
-		st.heap[p.obj] = &ChanObj{buf: append(append([]Value(nil), c.buf...), e.get(st, x.X)), cap: c.cap}
+		st.setHeap(p.obj, &ChanObj{buf: append(append([]Value(nil), c.buf...), e.get(st, x.X)), cap: c.cap})
 		e.wake(st, "chan:"+ptrKey(p))
 		e.wake(st, "select")
 		if st.race != nil {
@@ -668,13 +661,13 @@ func (e *Engine) step(st *State) {
 			if s.Dir == types.RecvOnly {
 				if len(c.buf) > 0 {
 					got = c.buf[0]
-					st.heap[p.obj] = &ChanObj{buf: append([]Value(nil), c.buf[1:]...), cap: c.cap, closed: c.closed}
+					st.setHeap(p.obj, &ChanObj{buf: append([]Value(nil), c.buf[1:]...), cap: c.cap, closed: c.closed})
 				} else {
 					got = zero(s.Chan.Type().Underlying().(*types.Chan).Elem())
 					tu.e[1] = Bool(false)
 				}
 			} else {
-				st.heap[p.obj] = &ChanObj{buf: append(append([]Value(nil), c.buf...), e.get(st, s.Send)), cap: c.cap, closed: c.closed}
+				st.setHeap(p.obj, &ChanObj{buf: append(append([]Value(nil), c.buf...), e.get(st, s.Send)), cap: c.cap, closed: c.closed})
 			}
 			for i, s2 := range x.States {
 				if s2.Dir == types.RecvOnly {
@@ -747,10 +740,11 @@ func (e *Engine) step(st *State) {
 		e.goPanic(st, "explicit panic")
 	case *ssa.Go:
 		st.goroutines++
-		gf := e.get(st, x.Call.Value).(Func)
-		var gargs []Value
-		for _, a := range x.Call.Args {
-			gargs = append(gargs, e.get(st, a))
+		gf, gargs := e.callee(st, &x.Call)
+		if gf.fn != nil {
+			if to, ok := e.redirects[gf.fn.String()]; ok {
+				gf = Func{fn: e.pkg.Func(to)}
+			}
 		}
 		saved := st.frames
 		st.frames = nil
@@ -761,14 +755,8 @@ func (e *Engine) step(st *State) {
 			st.race.spawn(st.cur)
 		}
 	case *ssa.Defer:
-		d := deferred{fn: e.get(st, x.Call.Value)}
-		for _, a := range x.Call.Args {
-			d.args = append(d.args, e.get(st, a))
-		}
-		if x.Call.IsInvoke() {
-			e.kill("incomplete: deferred invoke")
-		}
-		f.defers = append(f.defers, d)
+		dfn, dargs := e.callee(st, &x.Call)
+		f.defers = append(f.defers, deferred{fn: dfn, args: dargs})
 	case *ssa.RunDefers:
 		if len(f.defers) > 0 {
 			d := f.defers[len(f.defers)-1]
@@ -812,7 +800,7 @@ func (e *Engine) jump(st *State, f *Frame, to *ssa.BasicBlock) {
 
 func (st *State) arrOf(s Slice) Array { return getPath(st.heap[s.arr], s.apath).(Array) }
 func (st *State) setArr(s Slice, a Array) {
-	st.heap[s.arr] = setPath(st.heap[s.arr], s.apath, a)
+	st.setHeap(s.arr, setPath(st.heap[s.arr], s.apath, a))
 }
 func elemPtr(s Slice, i int) Ptr {
 	return Ptr{obj: s.arr, path: append(append([]int(nil), s.apath...), s.off+i)}
@@ -905,7 +893,7 @@ func (e *Engine) unop(st *State, x *ssa.UnOp) Value {
 		}
 		if len(c.buf) > 0 {
 			r = c.buf[0]
-			st.heap[p.obj] = &ChanObj{buf: append([]Value(nil), c.buf[1:]...), cap: c.cap, closed: c.closed}
+			st.setHeap(p.obj, &ChanObj{buf: append([]Value(nil), c.buf[1:]...), cap: c.cap, closed: c.closed})
 			e.wake(st, "chan:"+ptrKey(p))
 		} else if c.closed {
 			r, ok = zero(et), false
@@ -1243,7 +1231,7 @@ func (e *Engine) mapUpdate(st *State, x *ssa.MapUpdate) {
 	} else {
 		n.entries = append(n.entries, MapEntry{k: k, v: v})
 	}
-	st.heap[mr.obj] = n
+	st.setHeap(mr.obj, n)
 }
 
 func (e *Engine) rangeInit(st *State, x *ssa.Range) Value {
@@ -1298,17 +1286,17 @@ func (e *Engine) next(st *State, x *ssa.Next) Value {
 		n.order = append(append([]int(nil), it.order...), pick)
 		en := it.mp.entries[pick]
 		if en.p != nil && !e.decide(st, en.p) {
-			st.heap[p.obj] = &n
+			st.setHeap(p.obj, &n)
 			return e.next(st, x) // absent on this path: skip it
 		}
-		st.heap[p.obj] = &n
+		st.setHeap(p.obj, &n)
 		return Tuple{e: []Value{Bool(true), en.k, en.v}}
 	}
 	if it.pos >= len(it.str.b) {
 		return Tuple{e: []Value{Bool(false), BV(64, 0), BV(32, 0)}}
 	}
 	n.pos++
-	st.heap[p.obj] = &n
+	st.setHeap(p.obj, &n)
 	return Tuple{e: []Value{Bool(true), BV(64, uint64(it.pos)), Resize(it.str.b[it.pos], 32, false)}}
 }
 
@@ -1392,9 +1380,8 @@ func (e *Engine) typeAssert(st *State, x *ssa.TypeAssert) Value {
 	return res
 }
 
-// call returns true if it changed the frame stack / ip itself
-func (e *Engine) call(st *State, x *ssa.Call) bool {
-	cc := x.Common()
+// callee resolves the function and the argument values of a call site (static, closure or interface invoke)
+func (e *Engine) callee(st *State, cc *ssa.CallCommon) (Func, []Value) {
 	var args []Value
 	var fv Func
 	if cc.IsInvoke() {
@@ -1419,6 +1406,13 @@ func (e *Engine) call(st *State, x *ssa.Call) bool {
 	for _, a := range cc.Args {
 		args = append(args, e.get(st, a))
 	}
+	return fv, args
+}
+
+// call returns true if it changed the frame stack / ip itself
+func (e *Engine) call(st *State, x *ssa.Call) bool {
+	cc := x.Common()
+	fv, args := e.callee(st, cc)
 	if fv.builtin != "" {
 		st.top().env[x] = e.builtin(st, fv.builtin, args, cc)
 		return false
@@ -1540,7 +1534,7 @@ func (e *Engine) builtin(st *State, name string, args []Value, cc *ssa.CallCommo
 		if c.closed {
 			e.goPanic(st, "close of closed channel")
 		}
-		st.heap[p.obj] = &ChanObj{buf: c.buf, cap: c.cap, closed: true}
+		st.setHeap(p.obj, &ChanObj{buf: c.buf, cap: c.cap, closed: true})
 		if st.race != nil {
 			st.race.release(st.cur, "chan:"+ptrKey(p))
 		}
@@ -1557,7 +1551,7 @@ func (e *Engine) builtin(st *State, name string, args []Value, cc *ssa.CallCommo
 				n := &MapData{}
 				n.entries = append(n.entries, m.entries[:i]...)
 				n.entries = append(n.entries, m.entries[i+1:]...)
-				st.heap[mr.obj] = n
+				st.setHeap(mr.obj, n)
 			}
 		}
 		return nil
@@ -1569,6 +1563,10 @@ func (e *Engine) builtin(st *State, name string, args []Value, cc *ssa.CallCommo
 // intrinsic handles engine-level functions; returns true if handled (result stored)
 func (e *Engine) intrinsic(st *State, fv Func, args []Value, x *ssa.Call) bool {
 	if fv.fn == nil {
+		if fv.builtin != "" && x == nil { // deferred builtin (close, delete, ...)
+			e.builtin(st, fv.builtin, args, nil)
+			return true
+		}
 		return false
 	}
 	name := fv.fn.String()
@@ -1652,7 +1650,7 @@ func (e *Engine) intrinsic(st *State, fv Func, args []Value, x *ssa.Call) bool {
 		mr := args[0].(MapRef)
 		m := st.heap[mr.obj].(*MapData)
 		n := &MapData{entries: append(append([]MapEntry(nil), m.entries...), MapEntry{k: args[1], v: args[2], p: args[3].(*Term)})}
-		st.heap[mr.obj] = n
+		st.setHeap(mr.obj, n)
 	case strings.HasPrefix(short, "vndOpt"):
 		switch a := args[0].(type) {
 		case Iface:
@@ -1743,7 +1741,7 @@ func (e *Engine) intrinsic(st *State, fv Func, args []Value, x *ssa.Call) bool {
 				e.goPanic(st, "sync: unlock of unlocked mutex (Cond.Wait)")
 			}
 			l.writer = false
-			st.locks[mkey] = l
+			st.setLock(mkey, l)
 			e.wake(st, mkey)
 			if st.race != nil {
 				st.race.release(st.cur, mkey)
@@ -1755,7 +1753,7 @@ func (e *Engine) intrinsic(st *State, fv Func, args []Value, x *ssa.Call) bool {
 			e.block(st, mkey)
 		}
 		l.writer = true
-		st.locks[mkey] = l
+		st.setLock(mkey, l)
 		g.condPhase = 0
 		if st.race != nil {
 			st.race.acquire(st.cur, mkey)
@@ -1786,7 +1784,7 @@ func (e *Engine) intrinsic(st *State, fv Func, args []Value, x *ssa.Call) bool {
 	case short == "vndCover":
 		id := strOf(args[0])
 		if !st.covered[id] {
-			st.covered[id] = true
+			st.setCovered(id)
 			e.covers[id]++
 			if _, have := e.coverModels[id]; !have {
 				if r := e.sol.Check(st.pc); r == "sat" {
@@ -1855,7 +1853,7 @@ func (e *Engine) intrinsic(st *State, fv Func, args []Value, x *ssa.Call) bool {
 				st.race.release(st.cur, key)
 			}
 		}
-		st.locks[key] = l
+		st.setLock(key, l)
 	case name == "sync/atomic.LoadUint64" || name == "sync/atomic.LoadUint32":
 		if st.race != nil {
 			st.race.acquire(st.cur, "atomic:"+ptrKey(args[0].(Ptr)))
@@ -1910,7 +1908,7 @@ func (e *Engine) intrinsic(st *State, fv Func, args []Value, x *ssa.Call) bool {
 		case st.covered[key]:
 			e.block(st, key) // another goroutine is inside f
 		default:
-			st.covered[key] = true
+			st.setCovered(key)
 			st.top().ip++
 			e.pushCall(st, args[1].(Func), nil, nil)
 			st.top().onRet = key
@@ -1929,7 +1927,7 @@ func (e *Engine) intrinsic(st *State, fv Func, args []Value, x *ssa.Call) bool {
 		for i := 0; i < s.len; i++ {
 			n.in = append(n.in, st.arrOf(s).e[s.off+i].(*Term))
 		}
-		st.heap[p.obj] = n
+		st.setHeap(p.obj, n)
 		set(Tuple{e: []Value{BV(64, uint64(s.len)), Iface{}}})
 	case name == "(*crypto/sha256.digest).Sum":
 		p := args[0].(Ptr)
